@@ -69,7 +69,11 @@ def translate(prog, case, opts, paren_unary=False, layout=None, source_override=
     src = source_override if source_override is not None else render.render(prog, layout=layout, paren_unary=paren_unary)
     status, out = tool.try_convert(src, **opts)
     if status == "refused":
-        raise Trivial("refused: " + out)
+        if case.get("may_refuse"):
+            raise Trivial("refused: " + out)
+        # the generators of the differential checks write only programs of the supported fragment (measured: no refusal in 5 000 programs on the
+        # unchanged tree); the properties promise a translation for each of them, so a refusal is a failure of the property, not a skipped case
+        raise Violation("the tool refuses a program of the supported fragment (%s) instead of translating it" % out, dict(case, _source=src))
     if status == "internal":
         raise Trivial("internal_error: " + out)  # C15's business
     return src, out
